@@ -69,6 +69,14 @@ type c20GatedNew struct {
 	F int32     `ttlv:"0x540025"`
 }
 
+// c20Plain: a message without interface field (decodable: the reflective decoder cannot
+// fill a nil interface).
+type c20Plain struct {
+	H     c20Hdr     `ttlv:"0x540044"`
+	Items []c20Gated `ttlv:"0x540045"`
+	Tail  *c20Gated  `ttlv:"0x540046,omitempty"`
+}
+
 // c20Late sets the version after its gated fields have been written.
 type c20Late struct {
 	G c20Gated `ttlv:"0x540050"`
@@ -402,11 +410,12 @@ var c20Roots = []reflect.Type{
 	reflect.TypeFor[c20Msg](), reflect.TypeFor[*c20Msg](), reflect.TypeFor[c20Late](), reflect.TypeFor[c20Gated](),
 	reflect.TypeFor[*c20Gated](), reflect.TypeFor[c20Leafs](), reflect.TypeFor[c20Hdr](), reflect.TypeFor[c20Tree2](),
 	reflect.TypeFor[*c20Tree2](), reflect.TypeFor[c20Dyn](), reflect.TypeFor[[]c20Gated](), reflect.TypeFor[c20Tree1](),
+	reflect.TypeFor[c20Plain](),
 	reflect.TypeFor[c20BadKind](), reflect.TypeFor[c20NoTag](), reflect.TypeFor[c20HoldsBad](),
 }
 
 // c20GoodRoots never panic while their plan is built.
-var c20GoodRoots = c20Roots[:12]
+var c20GoodRoots = c20Roots[:13]
 
 func c20AllTypes() *c20Types {
 	c20Register()
